@@ -7,13 +7,15 @@
 // proposalsUsedAmount of the block, as blockchain.checkTxsContext does), then
 // Committee.ProcessBlock applies all of them.
 //
-//	reset <stageAmount> <usedAtStart> <crVotingPeriod> <publicVotingPeriod> <agreementCount> <withdrawFee> <rejectThreshold>
+//	reset <stageAmount> <usedAtStart> <crVotingPeriod> <publicVotingPeriod> <agreementCount> <withdrawFee> <rejectThreshold> [<usedNow>]
 //	begin <height>
 //	propose <id> <type:stage:amount,...>        CRCProposal (Normal), real context check
 //	review <id> <member> <a|r>                  environment: CRCProposalReview processed
 //	rejvotes <id> <amount>                      environment: public reject votes on the proposal
 //	track <id> <p|t|f|c|r> <stage>              CRCProposalTracking Progress/Terminated/Finalized/Common/Rejected, real check
 //	withdraw <id> <amount>                      CRCProposalWithdraw (payload v1), real check
+//	fund <v>                                    environment: payment to the CR expenses address (committee UTXO)
+//	withdraw0 <id> <inp> <out0> <out1|-> <toC> <utxos>   CRCProposalWithdraw payload v0 spending committee UTXOs, real check
 //	end [order]                                 Committee.ProcessBlock; prints committee + every proposal; order = processing
 //	                                            order of the queued txs after the node's SortTransactions (oracle value)
 package main
@@ -41,6 +43,7 @@ import (
 	ctypes "github.com/elastos/Elastos.ELA/core/types/common"
 	"github.com/elastos/Elastos.ELA/core/types/functions"
 	"github.com/elastos/Elastos.ELA/core/types/interfaces"
+	"github.com/elastos/Elastos.ELA/core/types/outputpayload"
 	"github.com/elastos/Elastos.ELA/core/types/payload"
 	crstate "github.com/elastos/Elastos.ELA/cr/state"
 	"github.com/elastos/Elastos.ELA/crypto"
@@ -93,6 +96,13 @@ type prop struct {
 	budgets []payload.Budget
 }
 
+type cutxo struct {
+	value common.Fixed64
+	op    ctypes.OutPoint
+	born  uint32
+	spent bool
+}
+
 type world struct {
 	params  *config.Configuration
 	cm      *crstate.Committee
@@ -108,6 +118,8 @@ type world struct {
 	nonce   uint32
 	paid    map[int]common.Fixed64 // Σ amounts recorded for real withdrawal, per proposal (from WithdrawableTxInfo)
 	wtx     map[common.Uint256]int // withdraw tx hash -> proposal id
+	cutxos  []*cutxo               // UTXOs of the CR expenses (committee) address
+	cIn     map[int]bool           // committee utxos used as inputs in the open block
 }
 
 var w *world
@@ -143,6 +155,8 @@ func newWorld(t []string) *world {
 	p.CRConfiguration.CRCProposalV1Height = 0
 	p.CRConfiguration.ChangeCommitteeNewCRHeight = 100000000
 	p.CRConfiguration.CRClaimDPOSNodeStartHeight = 100000000
+	exp, ast, dst := mkKey(5, 0).standardHash(), mkKey(5, 1).standardHash(), mkKey(5, 2).standardHash()
+	p.CRConfiguration.CRExpensesProgramHash, p.CRConfiguration.CRAssetsProgramHash, p.DestroyELAProgramHash = &exp, &ast, &dst
 	ckp := checkpoint.NewManager(p)
 	cm := crstate.NewCommittee(p, ckp)
 	st := state.NewState(p, nil, nil, nil, func() bool { return true }, nil, nil, nil, nil, nil, nil, nil)
@@ -150,7 +164,7 @@ func newWorld(t []string) *world {
 	chain.SetState(st)
 	chain.SetCRCommittee(cm)
 	ww := &world{params: p, cm: cm, chain: chain, owner: mkKey(1, 0), sg: mkKey(2, 0), props: map[int]*prop{},
-		paid: map[int]common.Fixed64{}, wtx: map[common.Uint256]int{}}
+		paid: map[int]common.Fixed64{}, wtx: map[common.Uint256]int{}, cIn: map[int]bool{}}
 	// a sitting committee in its election period (the election itself is outside this property)
 	cm.InElectionPeriod = true
 	cm.LastCommitteeHeight = 1
@@ -158,6 +172,9 @@ func newWorld(t []string) *world {
 	cm.CRCCurrentStageAmount = common.Fixed64(i64(t[1]))
 	cm.CRCCommitteeUsedAmount = common.Fixed64(i64(t[2]))
 	cm.CommitteeUsedAmount = common.Fixed64(i64(t[2]))
+	if len(t) >= 9 { // the committee has committed more since the stage amount was recorded
+		cm.CRCCommitteeUsedAmount = common.Fixed64(i64(t[8]))
+	}
 	for i := 0; i < nMembers; i++ {
 		k := mkKey(3, i)
 		ww.members = append(ww.members, k)
@@ -214,6 +231,9 @@ func errClass(e error) string {
 		{"stage should assignment zero", "stage"},
 		{"is not proposal final stage", "stage"},
 		{"no need to withdraw", "nothing"},
+		{"ProgramHash !=CRCComitteeAddresss", "out1"},
+		{"Value + fee != withdrawAmout", "amount"},
+		{"transaction fee not enough", "fee"},
 		{"withdrawPayload.Amount != withdrawAmount", "amount"},
 		{"should be bigger than RealWithdrawSingleFee", "small"},
 	} {
@@ -325,6 +345,7 @@ func exec(t []string) string {
 		w.inBlock = true
 		w.pending = nil
 		w.blkUsed = 0
+		w.cIn = map[int]bool{}
 		return "ok"
 	case "end":
 		// Committee.processTransactions re-orders txs[1:] with an unstable sort and an inconsistent
@@ -335,6 +356,9 @@ func exec(t []string) string {
 		blk := &types.Block{Header: ctypes.Header{Height: w.height, Timestamp: w.height * 120}, Transactions: w.pending}
 		w.cm.ProcessBlock(blk, nil)
 		w.inBlock = false
+		for id := range w.cIn {
+			w.cutxos[id].spent = true
+		}
 		return w.dump()
 	}
 	if !w.inBlock {
@@ -418,6 +442,70 @@ func exec(t []string) string {
 		v := verdict(tx)
 		if v == "accept" {
 			w.pending = append(w.pending, tx)
+		}
+		return v
+	case "fund": // environment: someone pays the CR expenses address (a committee UTXO appears)
+		v := common.Fixed64(i64(t[1]))
+		tx := w.mk(ctypes.TransferAsset, 0, &payload.TransferAsset{}, nil)
+		tx.SetOutputs([]*ctypes.Output{{ProgramHash: *w.params.CRConfiguration.CRExpensesProgramHash, Value: v, Payload: &outputpayload.DefaultOutput{}}})
+		w.pending = append(w.pending, tx)
+		w.cutxos = append(w.cutxos, &cutxo{value: v, op: *ctypes.NewOutPoint(tx.Hash(), 0), born: w.height})
+		return "queued"
+	case "withdraw0": // withdraw0 <id> <inp> <out0> <out1|-> <toCommittee> <utxo,..>: payload version 0, spends committee UTXOs
+		id := int(i64(t[1]))
+		pr, ok := w.props[id]
+		if !ok {
+			return "reject noprop"
+		}
+		inp, out0 := common.Fixed64(i64(t[2])), common.Fixed64(i64(t[3]))
+		var ins []*ctypes.Input
+		refs := map[*ctypes.Input]ctypes.Output{}
+		var sum common.Fixed64
+		var ids []int
+		for _, x := range strings.Split(t[6], ",") {
+			ci := int(i64(x))
+			if ci < 0 || ci >= len(w.cutxos) || w.cutxos[ci].spent || w.cIn[ci] || w.cutxos[ci].born >= w.height {
+				panic("harness: bad committee utxo id")
+			}
+			in := &ctypes.Input{Previous: w.cutxos[ci].op}
+			ins = append(ins, in)
+			refs[in] = ctypes.Output{ProgramHash: *w.params.CRConfiguration.CRExpensesProgramHash, Value: w.cutxos[ci].value}
+			sum += w.cutxos[ci].value
+			ids = append(ids, ci)
+		}
+		if sum != inp {
+			panic("harness: inp differs from the referenced committee utxos")
+		}
+		outs := []*ctypes.Output{{ProgramHash: w.owner.standardHash(), Value: out0, Payload: &outputpayload.DefaultOutput{}}}
+		var back common.Fixed64
+		if t[4] != "-" {
+			o1 := common.Fixed64(i64(t[4]))
+			if t[5] == "1" {
+				outs = append(outs, &ctypes.Output{ProgramHash: *w.params.CRConfiguration.CRExpensesProgramHash, Value: o1, Payload: &outputpayload.DefaultOutput{}})
+				back = o1
+			} else { // the change goes to an address that is not the committee's
+				outs = append(outs, &ctypes.Output{ProgramHash: w.sg.standardHash(), Value: o1, Payload: &outputpayload.DefaultOutput{}})
+			}
+		}
+		pl := &payload.CRCProposalWithdraw{ProposalHash: pr.hash, OwnerKey: w.owner.pk}
+		buf := new(bytes.Buffer)
+		pl.SerializeUnsigned(buf, payload.CRCProposalWithdrawDefault)
+		pl.Signature = w.owner.sign(buf.Bytes())
+		tx := w.mk(ctypes.CRCProposalWithdraw, payload.CRCProposalWithdrawDefault, pl, nil)
+		tx.SetInputs(ins)
+		tx.SetOutputs(outs)
+		tx.SetReferences(refs)
+		v := verdict(tx)
+		if v == "accept" {
+			w.pending = append(w.pending, tx)
+			for _, ci := range ids {
+				w.cIn[ci] = true
+			}
+			// what leaves the committee address for this proposal (judged from the tx itself)
+			w.paid[id] += inp - back
+			if back != 0 {
+				w.cutxos = append(w.cutxos, &cutxo{value: back, op: *ctypes.NewOutPoint(tx.Hash(), 1), born: w.height})
+			}
 		}
 		return v
 	case "withdraw":
